@@ -234,7 +234,7 @@ def op_sites(run) -> List[OpSite]:
                         open_ = True
             site = OpSite(fi, n, n.func.attr, op_expr, op_cls, tensors, star, op_args, op_kwargs, open_,
                           kw(n, "constant"), kw(n, "out"), why)
-            virt = _expand_selector_locals(run, fx, opbase, site) if (op_cls is None and isinstance(op_expr, ast.Name)) or any(
+            virt = _expand_selector_locals(run, fx, opbase, site) if isinstance(op_expr, ast.Name) or any(
                 isinstance(a, ast.Starred) and isinstance(a.value, ast.Name) for a in n.args[1:]) else None
             if virt:
                 out.extend(virt)
@@ -255,7 +255,9 @@ def _expand_selector_locals(run, fx, opbase, site: "OpSite") -> Optional[List["O
     fi, call = site.fi, site.call
     params = set(fi.params())
     sel = set()
-    if isinstance(site.op_expr, ast.Name) and site.op_cls is None and site.op_expr.id not in params:
+    stored_n = {x.id for x in ast.walk(fi.node) if isinstance(x, ast.Name) and isinstance(x.ctx, ast.Store)}
+    n_defs = sum(1 for x in ast.walk(fi.node) if isinstance(x, ast.Name) and isinstance(x.ctx, ast.Store) and isinstance(site.op_expr, ast.Name) and x.id == site.op_expr.id)
+    if isinstance(site.op_expr, ast.Name) and site.op_expr.id not in params and site.op_expr.id in stored_n and (site.op_cls is None or n_defs > 1):
         sel.add(site.op_expr.id)
     for a in call.args[1:]:
         if isinstance(a, ast.Starred) and isinstance(a.value, ast.Name) and a.value.id not in params:
